@@ -233,7 +233,22 @@ class ContractTable:
         I.ghost.setdefault("coh", {})[id(o)] = st
         I.ghost.setdefault("coh_objs", {})[id(o)] = o
 
+    def after_eval_family(self, I, fam, pt):
+        """An evaluation-like call on every child of a family at pt (G-mode)."""
+        coh = I.ghost.setdefault("coh", {})
+        for oid, st in list(coh.items()):
+            if st == ALLNONE:
+                coh[oid] = ("coh", id(pt))
+            elif isinstance(st, tuple) and st[1] != id(pt):
+                coh[oid] = UNKNOWN
+
     def require_coherent(self, I, o, pt, who):
+        if "indexed" in o.ghost:
+            fam = o.ghost["indexed"][0]
+            st = I.ghost.setdefault("coh_fam", {}).get(fam.name, UNKNOWN)
+            ok = st == ALLNONE or st == ("coh", id(pt))
+            I.path.require(z3.BoolVal(ok), f"memo:{who} requires Coherent({fam.name}[*])", f"memo state of the children is {st}")
+            return
         st = self.coh_state(I, o)
         ok = st == ALLNONE or st == ("coh", id(pt))
         I.path.require(z3.BoolVal(ok), f"memo:{who} requires Coherent({o.name})",
@@ -248,8 +263,11 @@ class ContractTable:
                 coh[oid] = ("coh", id(pt))
             elif isinstance(st, tuple) and st[1] != id(pt):
                 coh[oid] = UNKNOWN
-        coh[id(o)] = ("coh", id(pt))
-        I.ghost.setdefault("coh_objs", {})[id(o)] = o
+        if "indexed" in o.ghost:
+            I.ghost.setdefault("coh_fam", {})[o.ghost["indexed"][0].name] = ("coh", id(pt))
+        else:
+            coh[id(o)] = ("coh", id(pt))
+            I.ghost.setdefault("coh_objs", {})[id(o)] = o
 
     # ------------------------------------------------------------------ contracts
     def _point(self, I, pt):
